@@ -196,3 +196,82 @@ Proof.
   pose proof method_costs_bounded as Hb. rewrite forallb_forall in Hb. specialize (Hb _ E).
   apply andb_true_iff in Hb as [H1 H2]. lia.
 Qed.
+
+(* ---- the hand-written decision functions ARE the code: AvailablePlasma (vm/plasma.go) and enoughPlasma (vm/vm.go) as
+   translated by go2coq on every run (gen/Pure.v). The store reads (GetChainPlasma of the confirmed and of the
+   unconfirmed account store, GetStakeBeneficialAmount), GetBasePlasmaForAccountBlock, IsEmbeddedAddress and the
+   result of AddChainPlasma are inputs of the translations (oracles). *)
+Lemma available_is_source fa c u :
+  AvailablePlasma c 0 fa 0 u 0 =
+  match available fa c u with
+  | None => (0, Err_new_got_negative_available_plasma)
+  | Some v => (v, 0)
+  end.
+Proof.
+  unfold AvailablePlasma, available, fused_to_plasma. cbv zeta. change (0 =? 0) with true. cbn [negb].
+  pose proof (f2p_bound fa) as B. unfold fused_to_plasma in B.
+  rewrite (wrapS64_small (FussedAmountToPlasma fa)) by (unfold_consts; lia).
+  set (a := FussedAmountToPlasma fa + c - u).
+  destruct (a <? 0) eqn:E.
+  - assert (Z.sgn a = -1) as -> by lia. reflexivity.
+  - assert (Z.sgn a =? -1 = false) as -> by lia.
+    unfold zcmp. unfold_consts.
+    destruct (500000000000 <? a) eqn:E2.
+    + assert (a <? 500000000000 = false) as -> by lia. assert (a =? 500000000000 = false) as -> by lia. reflexivity.
+    + destruct (a <? 500000000000) eqn:E3; [reflexivity|].
+      assert (a =? 500000000000 = true) as -> by lia. reflexivity.
+Qed.
+
+Lemma available_errors_propagate c e1 fa e2 u e3 :
+  e1 <> 0 \/ e2 <> 0 \/ e3 <> 0 ->
+  exists e, e <> 0 /\ AvailablePlasma c e1 fa e2 u e3 = (0, e).
+Proof.
+  intros H. unfold AvailablePlasma. cbv zeta.
+  destruct (e1 =? 0) eqn:E1; cbn [negb]; [|exists e1; split; [lia|reflexivity]].
+  destruct (e2 =? 0) eqn:E2; cbn [negb]; [|exists e2; split; [lia|reflexivity]].
+  destruct (e3 =? 0) eqn:E3; cbn [negb]; [|exists e3; split; [lia|reflexivity]].
+  lia.
+Qed.
+
+Lemma enough_plasma_is_source fa c u base f d tp bp addres :
+  let av := AvailablePlasma c 0 fa 0 u 0 in
+  let total := u64 (difficulty_to_plasma d + f) in
+  enoughPlasma tp bp false (fst av) (snd av) f d base 0 addres =
+  match enough_plasma fa c u base f d with
+  | PPanic => Panic
+  | PErr 1 => Ok (Err_constants_ErrNotEnoughPlasma, tp, bp)
+  | PErr 2 => Ok (Err_constants_ErrBlockPlasmaLimitReached, total, bp)
+  | PErr _ => Ok (Err_constants_ErrNotEnoughTotalPlasma, total, base)
+  | POk t b _ => Ok (addres, t, b)
+  end.
+Proof.
+  cbv zeta. rewrite available_is_source. unfold enough_plasma, enoughPlasma.
+  destruct (available fa c u) as [av|]; cbn [fst snd].
+  - change (0 =? 0) with true. cbn [guard]. cbv zeta.
+    destruct (av <? f) eqn:E1; [reflexivity|].
+    unfold difficulty_to_plasma, u64, wrapU. change (2 ^ 64) with two64. unfold_consts.
+    destruct (10500000 <? (DifficultyToPlasma d + f) mod 18446744073709551616) eqn:E2; [reflexivity|].
+    destruct ((DifficultyToPlasma d + f) mod 18446744073709551616 <? base) eqn:E3; reflexivity.
+  - reflexivity.
+Qed.
+
+(* a block of an embedded address is not charged: nothing is read, nothing is written *)
+Lemma enough_plasma_embedded tp bp av ae f d base be addres :
+  enoughPlasma tp bp true av ae f d base be addres = Ok (0, tp, bp).
+Proof. reflexivity. Qed.
+
+Lemma source_accept_sound fa c u base f d tp bp total b :
+  0 <= c <= u -> 0 <= f < two64 -> 0 <= d < two64 ->
+  let av := AvailablePlasma c 0 fa 0 u 0 in
+  enoughPlasma tp bp false (fst av) (snd av) f d base 0 0 = Ok (0, total, b) ->
+  b = base /\ base <= total <= MaxPlasmaForAccountBlock /\ total = f + difficulty_to_plasma d /\
+  (u - c) + f <= fused_to_plasma fa.
+Proof.
+  intros Hcu Hf Hd av. subst av. rewrite enough_plasma_is_source.
+  destruct (enough_plasma fa c u base f d) as [t b' nc|code|] eqn:E.
+  - intros H. inversion H; subst. destruct (enough_plasma_sound _ _ _ _ _ _ _ _ _ E Hcu Hf Hd) as (A & B & C & D & _).
+    repeat split; lia.
+  - unfold Err_constants_ErrNotEnoughPlasma, Err_constants_ErrBlockPlasmaLimitReached, Err_constants_ErrNotEnoughTotalPlasma.
+    repeat (match goal with |- context [match ?x with _ => _ end] => destruct x end); discriminate.
+  - discriminate.
+Qed.
